@@ -21,12 +21,13 @@ class Config:
     helicity_couplings: bool = False
     dynamics: str = "none"  # none | bw | bwff
     relabel: bool = False  # final-state ids 1..3 (needed by DPD)
+    naming: str = "default"  # default | parent (insert_parent_helicities) | nochild (insert_child_helicities off)
 
     @property
     def tag(self) -> str:
         f = "hel" if self.formalism == "helicity" else "can"
         return (f"{self.reaction}/{f}/align={self.alignment}/stable={self.stable}/scalar_m0={int(self.scalar_initial_mass)}"
-                f"/couplings={int(self.helicity_couplings)}/dyn={self.dynamics}")
+                f"/couplings={int(self.helicity_couplings)}/dyn={self.dynamics}" + ("" if self.naming == "default" else f"/naming={self.naming}"))
 
 
 def quiet() -> None:
@@ -63,6 +64,8 @@ def make_builder(cfg: Config, reaction=None):
         b.config.stable_final_state_ids = fs
     b.config.scalar_initial_state_mass = cfg.scalar_initial_mass
     b.config.use_helicity_couplings = cfg.helicity_couplings
+    b.naming.insert_parent_helicities = cfg.naming == "parent"
+    b.naming.insert_child_helicities = cfg.naming != "nochild"
     if cfg.dynamics != "none":
         builder = create_relativistic_breit_wigner if cfg.dynamics == "bw" else create_relativistic_breit_wigner_with_ff
         for name in r.get_intermediate_particles().names:
@@ -82,6 +85,8 @@ def reconfigure(b, cfg: Config) -> None:
     b.config.stable_final_state_ids = None if cfg.stable == "none" else (fs[:2] if len(fs) > 2 else fs[:1]) if cfg.stable == "some" else fs
     b.config.scalar_initial_state_mass = cfg.scalar_initial_mass
     b.config.use_helicity_couplings = cfg.helicity_couplings
+    b.naming.insert_parent_helicities = cfg.naming == "parent"
+    b.naming.insert_child_helicities = cfg.naming != "nochild"
 
 
 def build(cfg: Config):
